@@ -91,6 +91,9 @@ fn main() {
                 let cases: u64 = match id.as_str() {
                     "C10" | "C11" => 48,
                     "C13" => 400,
+                    // the first indices of these are the systematic sweeps: go 6000 cases into
+                    // the seeded campaign as well
+                    "C06" | "C07" | "C08" => modee::sweep_len(runner::Tier::Quick) + 6000,
                     _ => 4000,
                 };
                 let c = dispatch!(id.as_str(), selfcheck_main, cases, seed);
